@@ -78,6 +78,7 @@ fn generate(rng: &mut Rng) -> C10Sc {
         client,
         wplan: vec![],
         cap_ns: secs(600),
+        prelude: vec![],
     };
     let gap_s = match rng.below(8) {
         0 => 0,
